@@ -5,13 +5,13 @@ ROOT = os.path.dirname(os.path.dirname(os.path.abspath(__file__)))
 g = runpy.run_path(os.path.join(ROOT, "check"), run_name="check_module")
 PROPS = g["PROPS"]
 tech = {
- 'C01':'differential oracle: MoveGen and Board::legal (all 20480 triples on sampled nodes) vs an independent mailbox reference model, over random playouts (continuing through rights-only divergence), complete move trees, 23 directed recipes, set-up e.p. positions, every slider-table entry reached through the generator, and a stored coverage-guided corpus; UB-check build, Miri (move-kind tour, threads smoke); thorough adds ASan',
+ 'C01':'differential oracle: MoveGen and Board::legal (all 20480 triples on sampled nodes) vs an independent mailbox reference model, over random playouts (continuing through rights-only divergence; echo visits of look-alike positions), complete move trees, 23 directed recipes, set-up e.p. positions, every slider-table entry reached through the generator, and a stored coverage-guided corpus; UB-check build, Miri (move-kind tour, threads smoke); thorough adds ASan',
  'C02':'differential oracle on successors (both entry points; default, unrelated, look-alike and uninitialised output boards) vs the reference model; UB-check build, Miri move-kind tour incl. the castle-rights tables of the other colour, threads smoke; thorough adds ASan',
  'C03':'runtime invariants at every node + from-scratch twins (FEN, builder) + reference-model attack/pin oracle, incl. positions with up to 15 lined-up sliders and every slider-table entry; UB-check build, Miri',
- 'C04':'exhaustive execution of all 3-man (thorough: 12 four-man) endgames + status oracle in play with a one-ply look-ahead onto every terminal and few-move successor (games ended by e.p., castling, promotion; stalemates with an illegal pseudo-legal e.p. capture); UB-check build, Miri',
+ 'C04':'exhaustive execution of all 3-man (thorough: 12 four-man) endgames + status oracle in play (echo visits of look-alike positions against state that survives between calls) with a one-ply look-ahead onto every terminal and few-move successor (games ended by e.p., castling, promotion; stalemates with an illegal pseudo-legal e.p. capture); UB-check build, Miri',
  'C05':'history monitor along the moves the library itself generates (validity, king count, monotone rights and material, is_sane) over long playouts and move trees; UB-check build, Miri',
  'C06':'independent FEN lexer and standard writer as oracle at every node of the walk workloads + round trips through text and builder, incl. the longest FENs a valid position has; UB-check build, ASan and Miri over the renderer',
- 'C07':'hostile-input workload (mutated / random text, arbitrary, crowded, lattice, full-board and home-square-confusion builder states) under panic capture; necessary-condition oracle and one step of use on every accepted board; UB-check build, Miri; thorough adds ASan and a libFuzzer target',
+ 'C07':'hostile-input workload (mutated / random text, arbitrary, crowded, lattice, full-board and home-square-confusion builder states, edited copies of validated boards, the same builder content reached along different construction paths and through the three TryFrom impls) under panic capture; necessary-condition oracle and one step of use on every accepted board; UB-check build, Miri; thorough adds ASan and a libFuzzer target',
  'C08':'event log of (exact position, hash, path) merged offline for path independence + from-scratch twins, transposition and move-order workloads, Hash/Eq consistency; UB-check build, Miri',
  'C09':'single-component sibling oracle (all rights subsets, e.p. files, every man), key-independence analysis and offline collision scan over the merged event logs of sparse positions; UB-check build, Miri',
  'C10':'online trace automaton (model game) over adversarial action scripts (legal / illegal / pseudo-legal moves with every promotion-field value, offers, accepts, resignations, declarations, calls after the result, a 66000-action log); UB-check build, Miri; thorough adds a libFuzzer target over action scripts',
@@ -23,7 +23,7 @@ tech = {
  'C16':'exhaustive execution of the geometry functions and square arithmetic against coordinate definitions, sweep over every Square constructor with out-of-range inputs; UB-check build, ASan, Miri',
  'C17':'metamorphic oracle (colour and left-right mirror images) with lock-step parallel playouts; UB-check build, Miri',
  'C18':'from-scratch twin comparison + reference-model oracle for null moves at every node and interleaved in histories, incl. many lined-up sliders; UB-check build, Miri',
- 'C19':'model-based op-sequence monitor (Vec model) over eight payload types incl. floats compared by bit pattern, bulk false-hit probe of 2^33 lookups; UB-check build, ASan, Miri; thorough adds valgrind memcheck',
+ 'C19':'model-based op-sequence monitor (exact model per slot class; slot sharing inferred by probing a scratch table, not assumed to be hash & mask; searched slot partners, truncated- and folded-key pairs) over eight payload types incl. floats compared by bit pattern, bulk false-hit probe of 2^33 lookups; UB-check build, ASan, Miri; thorough adds valgrind memcheck',
  'C20':'bit-by-bit set-model oracle over exhaustive singletons, structured and random values, all operator variants (owned / borrowed / assigning, same-object operands) and Iterator adaptors; UB-check build, Miri',
 }
 hook_commits = [l.split()[0] for l in os.popen("git -C /repo log --oneline --grep='^verif hook'").read().splitlines()]
